@@ -39,7 +39,9 @@ func startSys(window int, queue int) *sys {
 	if queue > 0 {
 		b.SessionQueueSize = queue
 	}
-	b.KillTimeout = long // never reached unless something is stuck: a gate is held for an absence window, not longer
+	// everything else keeps the library's defaults (kill timeout 5 s: a gate is held for an absence window, not longer; token
+	// timeout, parallel publishes/subscribes, engine read limit and timeouts): a changed default is then seen by the scenarios.
+	// window == 0 / queue == 0: the defaults for those too
 	e := broker.NewEngine(b)
 	port, quit, done := broker.Run(e, "tcp")
 	return &sys{backend: b, engine: e, port: port, quit: quit, done: done}
